@@ -35,6 +35,7 @@ import (
 	u "github.com/refraction-networking/uquic/internal/verifutil"
 	"github.com/refraction-networking/uquic/quicvarint"
 	"github.com/refraction-networking/uquic/testutils/simnet"
+	tls "github.com/refraction-networking/utls"
 )
 
 func init() {
@@ -960,6 +961,36 @@ func runRunLoop(w *bufio.Writer, seed uint64, n int, args []string) {
 			}
 		}
 		o.emit(1, u.App("ClosedConnCase", u.ZU(uint64(st)), u.List(bs)))
+	}
+	// run() returning before its loop: a Dial whose TLS configuration cannot start a handshake
+	for _, plain := range []bool{true, false} {
+		err := inBubble(func() {
+			e, err := newSimEnv(simOpts{PlainPath: plain, ClientTLS: func(t *tls.Config) { t.MaxVersion = tls.VersionTLS12 }})
+			if err != nil {
+				o.fail("runloop/env", err.Error())
+				return
+			}
+			defer e.Close()
+			_, derr := e.Dial(context.Background())
+			synctest.Wait()
+			if derr == nil {
+				o.fail("runloop/bad-tls-dial", "Dial with MaxVersion TLS 1.2 succeeded")
+				return
+			}
+			routing, apiClosed := int64(0), false
+			for _, c := range quic.VerifTransportConns(e.CliTr) {
+				routing = 3
+				if _, err := c.OpenUniStream(); err != nil {
+					var sl *quic.StreamLimitReachedError
+					apiClosed = !errors.As(err, &sl)
+				}
+			}
+			o.emit(1, u.App("EarlyExitCase", u.Z(routing), u.B(apiClosed)))
+			time.Sleep(11 * time.Second)
+		})
+		if err != nil {
+			o.fail("runloop/leak-or-panic", "bad-tls dial: "+err.Error())
+		}
 	}
 	for i := 0; i < n; i++ {
 		tc := genRLCase(r)
